@@ -28,8 +28,15 @@ TRUSTED = ["highspy: changeColsBounds/changeColsCost set what they are given; ge
 ASSUMPTIONS = ["documented preconditions of the helpers: lb = 0 <= ub, binary/integer factor within its bound, x inside a range"]
 
 
-def new_sw(fp):
-    return fp.utils.solverwrapper.SolverWrapper(**{"log_to_console": "false"})
+def new_sw(fp, variant=0):
+    """variant 0: defaults; 1: finite backend time limit; 2: backend time limit plus the signal-based custom time-out (the
+    optimize() path that goes through _run_with_timeout)"""
+    kw = {"log_to_console": "false"}
+    if variant >= 1:
+        kw["time_limit"] = 30
+    if variant == 2:
+        kw["use_also_custom_timeout"] = True
+    return fp.utils.solverwrapper.SolverWrapper(**kw)
 
 
 def num(q):
@@ -174,15 +181,22 @@ def gen_history(rng, nops):
             ops.append({"op": "queueLb", "idx": rng.randrange(ncols), "v": str(rng.choice([0, 1, 2, 3]))})
         elif kind == "setObjective":
             ts = [[rng.randrange(ncols), str(rng.choice([1, 2, -1, 3]))] for _ in range(rng.randint(1, 4))]
-            ops.append({"op": "setObjective", "terms": ts})
+            o = {"op": "setObjective", "terms": ts}
+            r = rng.random()
+            if r < 0.35:
+                o["const"] = str(rng.choice([5, -3, 10, 1]))           # a constant term
+            elif r < 0.5:
+                o["const"] = "0"                                        # a constant that is 0 (e.g. +5 -5)
+            ops.append(o)
         else:
             ops.append({"op": "optimize"})
     ops.append({"op": "optimize"})
     return ops
 
 
-def run_history_real(fp, ops):
-    sw = new_sw(fp)
+def run_history_real(fp, ops, variant=0, reads=None):
+    """`reads` (a list) receives, after every optimize(), (status, values read back for all columns, objective value)"""
+    sw = new_sw(fp, variant)
     cols = []
     pfx = 0
     for o in ops:
@@ -196,10 +210,21 @@ def run_history_real(fp, ops):
         elif o["op"] == "queueLb":
             sw.queue_set_var_lower_bound(cols[o["idx"]], num(o["v"]))
         elif o["op"] == "setObjective":
-            sw.set_objective(sw.quicksum([cols[i] * num(c) for i, c in o["terms"]]), sense="minimize")
+            expr = sw.quicksum([cols[i] * num(c) for i, c in o["terms"]])
+            if o.get("const") is not None:
+                expr = expr + num(o["const"])
+            sw.set_objective(expr, sense="minimize")
         elif o["op"] == "optimize":
             sw.optimize()
+            if reads is not None:
+                try:
+                    vals = sw.get_values({j: c for j, c in enumerate(cols)})
+                    reads.append((str(sw.get_model_status()), [vals[j] for j in range(len(cols))], sw.get_objective_value()))
+                except Exception as e:
+                    reads.append(("raised " + type(e).__name__, None, None))
     lp = sw.solver.getLp()
+    if reads is not None:
+        reads.append(("offset", lp.offset_, None))
     return [[qstr(lp.col_lower_[j]), qstr(lp.col_upper_[j]), qstr(lp.col_cost_[j])] for j in range(lp.num_col_)]
 
 
@@ -229,8 +254,66 @@ def history_oracle(ops, final):
     return [[qstr(a), qstr(b), qstr(c)] for a, b, c in cols]
 
 
+def readback_oracle(ops):
+    """property text, recomputed independently: after every optimize() the status is optimal or infeasible as the box says, the
+    values read back for a column with non-zero cost are its lower (cost > 0) or upper (cost < 0) bound, the objective value is
+    sum cost*value + the constant of the LAST objective; at the end the stored offset is that constant"""
+    cols, pf, pl, const, out = [], [], [], Fraction(0), []
+    for o in ops:
+        if o["op"] == "addVars":
+            cols += [[Fraction(b[0]), Fraction(b[1]), Fraction(0)] for b in o["bounds"]]
+        elif o["op"] == "queueFix":
+            pf.append((o["idx"], Fraction(o["v"])))
+        elif o["op"] == "queueLb":
+            pl.append((o["idx"], Fraction(o["v"])))
+        elif o["op"] == "setObjective":
+            for c in cols:
+                c[2] = Fraction(0)
+            for i, c in o["terms"]:
+                cols[i][2] += Fraction(c)
+            const = Fraction(o["const"]) if o.get("const") is not None else Fraction(0)
+        elif o["op"] == "optimize":
+            for i, v in pf:
+                cols[i][0] = cols[i][1] = v
+            for i, v in pl:
+                cols[i][0] = v
+            pf, pl = [], []
+            feasible = all(a <= b for a, b, _ in cols)
+            want = [(a if c > 0 else b if c < 0 else None) for a, b, c in cols]
+            obj = sum((a if c > 0 else b) * c for a, b, c in cols if c != 0) + const if feasible else None
+            out.append((feasible, want, obj))
+    return out, const
+
+
 def run_history(ctx, ops, suite="K1.history"):
-    real = run_history_real(ctx.fp, ops)
+    variant = ctx.rng.choice([0, 0, 1, 2])
+    reads = []
+    real = run_history_real(ctx.fp, ops, variant, reads)
+    # ---- oracle on what is read back after every optimize() and on the stored objective constant
+    want_reads, want_const = readback_oracle(ops)
+    ctx.rep.cov["oracle_evaluations"] += 1
+    off = reads.pop()
+    rsite = None
+    for t, ((st, vals, obj), (feasible, want, wobj)) in enumerate(zip(reads, want_reads)):
+        if not feasible:
+            continue
+        if st != "kOptimal" or vals is None:
+            rsite, what = "optimize", f"optimize() #{t}: status {st} on a feasible box"
+            break
+        bad = [j for j, w in enumerate(want) if w is not None and abs(vals[j] - float(w)) > 1e-6]
+        if bad:
+            rsite, what = "get_values", (f"after optimize() #{t} get_values returns {[vals[j] for j in bad]} for column(s) {bad}, "
+                                         f"the optimum of the box under the current objective is {[str(want[j]) for j in bad]}")
+            break
+        if abs(obj - float(wobj)) > 1e-6:
+            rsite, what = "get_objective_value", (f"after optimize() #{t} get_objective_value() = {obj}, the current objective "
+                                                   f"(costs and constant of the last set_objective) gives {wobj}")
+            break
+    if rsite is None and any(o["op"] == "setObjective" for o in ops) and abs(off[1] - float(want_const)) > 1e-9:
+        rsite, what = "set_objective", (f"the stored objective constant is {off[1]} after the last set_objective asked for "
+                                        f"{want_const}: the replaced objective's constant survives")
+    if rsite:
+        ctx.violation(what, {"ops": ops, "wrapper_variant": variant}, site=rsite)
     model = ctx.driver.call({"op": "wrapper.ops", "ops": ops, "field": "upper"})
     nontriv = any(o["op"] in ("queueFix", "queueLb", "setObjective") for o in ops)
     ctx.rep.count(suite, ops, nontrivial=nontriv, hist=[o["op"] for o in ops])
